@@ -392,6 +392,14 @@ theorem C08_leave_departure_reaches_someone (self : String) (k : Nat) (nodes : A
   have := (C08_gossip_rule (m.name == self) m.state m.old).mp hex
   exact ⟨by simpa using this.1, this.2⟩
 
+/-- the hypotheses of `C08_leave_departure_reaches_someone` are satisfiable: a node and one alive peer -/
+example : kRandom 3 (withGossipRule "S" #[⟨"S", 0, false, false⟩, ⟨"p", 0, false, false⟩])
+    (withGossipRule "S" #[⟨"S", 0, false, false⟩, ⟨"p", 0, false, false⟩]).toList [] ≠ [] :=
+  (C08_leave_departure_reaches_someone "S" 3 #[⟨"S", 0, false, false⟩, ⟨"p", 0, false, false⟩] _ []
+    (List.Perm.refl _)
+    (by intro n hn; simp at hn; rcases hn with rfl | rfl <;> decide)
+    (by decide) (by decide) (by decide)).1
+
 example : kRandom 2 #[⟨"a", 0, false, true⟩, ⟨"b", 0, false, false⟩, ⟨"c", 1, false, false⟩]
     [⟨"c", 1, false, false⟩, ⟨"a", 0, false, true⟩, ⟨"b", 0, false, false⟩] [] =
     [⟨"c", 1, false, false⟩, ⟨"b", 0, false, false⟩] := by decide
